@@ -20,7 +20,7 @@ from ..gen import c11_gen as GEN
 
 PID = "C11"
 COQ_HEADER = ("From Coq Require Import List NArith ZArith.\nImport ListNotations.\n"
-              "From SK Require Import lib.Tok lib.LGraph model.C11_Model model.C11_State model.C11_Partial model.C11_Keys model.C11_Attr model.C11_Orbit model.C11_Order model.C11_SigObs model.C11_Views.\nLocal Open Scope N_scope.\n")
+              "From SK Require Import lib.Tok lib.LGraph model.C11_Model model.C11_State model.C11_Partial model.C11_Keys model.C11_Attr model.C11_Orbit model.C11_Order model.C11_SigObs model.C11_Views model.C11_AttrFull.\nLocal Open Scope N_scope.\n")
 SHARD = 100
 IMPL_TIMEOUT = 300      # the stage takes 7 s on 16 idle cores (40 CPU-s); a lost pool worker ends it after this bound, not later
 COQ_TIMEOUT = 300       # per shard of 100 cases (8 CPU-s at most since the cases are dealt round-robin)
@@ -41,7 +41,7 @@ EXPLANATION = ("Exhaustive sub-space (both tiers): every labelled graph up to is
                "Everything else is seeded random / "
                "corpus sampling.  Theorems (coq/props/C11.v, all closed under the global context): C11_vocabulary, C11_aut_count, C11_aut_group, "
                "C11_vf2_contract, C11_vf2_contract_items, C11_orbits_exact, C11_orbits_partition, C11_components, C11_anchors, C11_object_state, C11_wl_never_splits, C11_wl_partition, C11_wfb_sound, "
-               "C11_dedup_sublist, C11_dedup_first_of_class, C11_dedup_idempotent, C11_partial_prune, C11_partial_prune_hosts, C11_prune_complete, C11_rep_ok, C11_prune_complete_aut, C11_prune_first_of_class, C11_prune_same_results, C11_configured_labels_only, C11_key_options, C11_rule_labels, C11_orbit_accuracy, C11_aut_observable, C11_wl_never_splits_reported, C11_orbit_accuracy_all, C11_orbit_order, C11_views, C11_dedup_singletons_sound, C11_dedup_orbit_sets_merge_unrelated, C11_orbits_no_swaps, C11_count_no_swaps, C11_repr_numeral, C11_reported_order_canonical, C11_prune_attr.")
+               "C11_dedup_sublist, C11_dedup_first_of_class, C11_dedup_idempotent, C11_partial_prune, C11_partial_prune_hosts, C11_prune_complete, C11_rep_ok, C11_prune_complete_aut, C11_prune_first_of_class, C11_prune_same_results, C11_configured_labels_only, C11_key_options, C11_rule_labels, C11_orbit_accuracy, C11_aut_observable, C11_wl_never_splits_reported, C11_orbit_accuracy_all, C11_orbit_order, C11_views, C11_dedup_singletons_sound, C11_dedup_orbit_sets_merge_unrelated, C11_orbits_no_swaps, C11_count_no_swaps, C11_repr_numeral, C11_reported_order_canonical, C11_prune_attr, C11_wl_sweeps, C11_aut_observable_attr.")
 TRUSTED_BASE = [
     "Coq 8.16.1 kernel + vm_compute (no native_compute)",
     "hand-written model coq/model/C11_Model.v tied to synkit/Graph/Matcher/{automorphism,auto_est,dedup_matches}.py and the pruning call of "
@@ -50,8 +50,9 @@ TRUSTED_BASE = [
     "enumerated maps and the set of their (node, image) pairs; C11_vf2_contract(_items) show that any duplicate-free listing of exactly the "
     "label-preserving automorphisms (maps as dictionaries, item order free) gives the same analysis; that VF2 is such a listing is monitored on every case (count, orbit sets, number "
     "of rule automorphisms) and independently against a brute-force Python enumerator in the oracle",
-    "harness encoders harness/props/C11.py (bulk cases: attribute tuples interned injectively to N; attribute-dictionary cases: keys and "
-    "values coded injectively, selection / defaults / tuple building in the model; dict order shipped as list order); the theorems' "
+    "harness encoders harness/props/C11.py (aut / keys / prune cases: attribute keys and values coded injectively, selection / defaults / "
+    "tuple building in the model; dedup patterns and hosts: attribute tuples interned injectively to N in Python; dict order shipped as list "
+    "order); the theorems' "
     "premise wf (distinct node ids, edges between distinct listed nodes, one entry per unordered pair) is computed by the model function wfb "
     "on every encoded graph and compared with True",
     "C11_prune_same_results is stated for any result function that depends only on the item set of a match and is invariant under rule "
@@ -65,9 +66,9 @@ TESTED_NOT_PROVED = ["end-to-end: set of standardised reactions and of ITS hashe
                      "the proved half is: every raw match differs from a kept match by a rule automorphism)",
                      "whole-molecule templates (reaction-centre graph above the enumerator budget, about 17+ atoms) are outside the model's "
                      "evaluated domain: for them only the oracle runs (counted under outside_model_domain)",
-                     "the bulk aut / dedup cases hand the model one interned label per node and edge (Python projection _coq_graph); the key "
-                     "options, the defaults of absent attributes and the rule labels are evaluated from the attribute dictionaries inside the "
-                     "model on the keys / degenerate / history / prune cases and the dedup skip configurations only"]
+                     "the dedup cases (pattern, host) and the object histories hand the model one interned label per node and edge (Python "
+                     "projection _coq_graph); every aut / keys / history-step / prune case and the dedup skip configurations evaluate the key "
+                     "options, the defaults of absent attributes and the labels from the attribute dictionaries inside the model"]
 LEVEL_TEXT = ("Machine-checked proof (Coq, all inputs) over an executable model of Automorphism, AutoEst, both match de-duplicators and the pruning "
               "step of SynReactor.mappings(): the enumeration is a duplicate-free list of exactly the label-preserving automorphisms, which form a "
               "group; the reported count is its length (product over components for disconnected graphs, component swaps excluded as the code "
@@ -749,7 +750,7 @@ def _impl_hist(case):
         for st in case["steps"]:
             lazy = Automorphism(G) if st.get("edit") else None
             _edit_nx(G, st.get("edit", []))
-            obs = _aut_obs_keys(G, st.get("nk"), st.get("ek")) if ("ek" in st or st.get("nk") == []) else _aut_obs(G, st.get("nk"))
+            obs = _aut_obs_keys(G, st.get("nk"), st.get("ek"))
             out.append([obs, _reuse_flags(G, E_old, lazy)])
             reads.append([A_kept.n_automorphisms, S([S(sorted(o)) for o in A_kept.orbits])])
             col = E_kept.fit().node_colors
@@ -767,7 +768,7 @@ def _coq_hist(case):
         for st, g in zip(case["steps"], hist_graphs(case)):
             if not _in_domain(g):
                 return None
-            t = _coq_keys(g, st.get("nk"), st.get("ek")) if ("ek" in st or st.get("nk") == []) else "run_aut_wf %s" % _coq_graph(g, st.get("nk"))
+            t = _coq_keys(g, st.get("nk"), st.get("ek"))
             terms.append("L [%s; tlist tbool [%s]]" % (t, "; ".join(["true"] * N_FLAGS)))
         return "L [L [%s]; run_objects [%s]]" % ("; ".join(terms), "; ".join(_coq_graph(g) for g in hist_graphs(case)))
     if case["script"] == "prune":
@@ -950,7 +951,9 @@ def coq_case(case):
                 return None
         if case.get("attr"):
             return _coq_keys(case["g"], None, None)
-        return "run_aut_full %s" % _coq_graph(case["g"])
+        # the attribute dictionaries as they are; keys, defaults and labels are the model's business (C11_AttrFull.run_aut_full_attr
+        # = the observable of run_aut_full on to_graph ... ag)
+        return "run_aut_full_attr %s" % _coq_agraph(case["g"])[0]
     if k == "dedup":
         if not (_in_domain(case["p"]) and _in_domain(case["h"])):
             return None
